@@ -372,6 +372,6 @@ func TestC02_Relay(t *testing.T) {
 	if kit.Tier() == "thorough" {
 		maxBytes = 2 << 20
 	}
-	p := kit.Prop[C02Case]{ID: "C02", Name: "Relay", Quick: 3000, Thorough: 120000, Gen: genC02(maxBytes), Run: runC02}
+	p := kit.Prop[C02Case]{ID: "C02", Name: "Relay", Quick: 6000, Thorough: 120000, Gen: genC02(maxBytes), Run: runC02}
 	p.Execute(t)
 }
